@@ -30,6 +30,10 @@ def to_scenario(sid, hist, npeers):
         if h["op"] == "day":
             d, k = d + 1, 1
             continue
+        if h["op"] == "at":
+            # the next operations happen on that day (the counter keeps growing: no two operations share a date)
+            d = h["d"]
+            continue
         st = dict(h)
         sim = st.pop("sim", False)
         if not sim:
